@@ -17,7 +17,8 @@
   False of the code today, with kernel-checked counterexamples that the harness replays on the real
   code as known findings: `a == b → hash(a) == hash(b)` (`eq_hash_statement_false`, six
   `eq_hash_counterexample_*`), hash of a deep / unpickled copy with a re-ordered set
-  (`deepcopy_hash_counterexample`, `pickle_hash_counterexample`).  `eq_hash_partial` proves the implication on the region
+  (`deepcopy_hash_counterexample`, `pickle_hash_counterexample`), `_none_fields` lost by pickle
+  (`pickle_counterexample_nones`).  `eq_hash_partial` proves the implication on the region
   that excludes exactly those spellings.
 -/
 import TypedpyModel.Lemmas.EqLemmas
@@ -483,5 +484,68 @@ theorem pickle_hash_counterexample :
     ∧ (hashKey exR { cls := "A", attrs := [("s", .set false [.str "a", .int 3])] }
         == hashKey exR (pickleI List.reverse { cls := "A", attrs := [("s", .set false [.str "a", .int 3])] })) = false := by
   decide
+
+/-! ### classes with `_enable_undefined_value`: "never set" vs "explicitly `None`" -/
+
+def exU : EqCtx := { fields := ["a", "b"] }
+def exUC : ClassOpts := { name := "C", required := [], addl := false, accepts := ["C"] }
+def exUFields : List (String × FieldDecl) := [("a", .integer {}), ("b", .integer {})]
+/-- `C(a=1)`: `b` never set, reads `Undefined` -/
+def exUnset : Inst := { cls := "C", attrs := [("a", .int 1)], undef := true }
+/-- `C(a=1, b=None)`: `b` recorded in `_none_fields`, reads `None` -/
+def exNone : Inst := { cls := "C", attrs := [("a", .int 1)], nones := ["b"], undef := true }
+
+/-- the two are told apart by `==` in both directions (symmetry is `instEq_symm`, which covers
+    `_none_fields`), by the values read back, and by the printed form; assigning `None` turns the
+    first into the second -/
+theorem undef_unset_vs_none_example :
+    instEq exU exUnset exNone = false ∧ instEq exU exNone exUnset = false
+    ∧ PyVal.pyEq (getA exU exUnset "b") undefinedV = true ∧ PyVal.pyEq (getA exU exNone "b") .none = true
+    ∧ (hashKey exR exUnset == hashKey exR exNone) = false
+    ∧ instEq exU (stepI Generated.wrappers exO exUC exUFields exUnset (.setattr "b" .none)).1 exNone = true
+    ∧ instEq exU (stepI Generated.wrappers exO exUC exUFields exNone (.setattr "b" (.int 2))).1
+        { cls := "C", attrs := [("a", .int 1), ("b", .int 2)], undef := true } = true := by
+  decide
+
+/-- on such a class `x.f = None` for a non-required field of a mutable instance is never stored:
+    the name is recorded in `_none_fields` and `__dict__` is left as it is -/
+theorem setattr_none_recorded (tbl : List MethodRec) (O : Oracles) (c : ClassOpts)
+    (fields : List (String × FieldDecl)) (x : Inst) (f : String) (fd : FieldDecl)
+    (hu : x.undef = true) (hm : c.immutable = false) (hf : lookup f fields = some fd)
+    (hr : c.required.contains f = false) :
+    stepI tbl O c fields x (.setattr f .none) = ({ x with nones := addName f x.nones }, .ok) := by
+  simp only [stepI, setattrUndef, hu, hm, hf, hr, PyVal.isNone, if_true, Bool.false_and,
+    Bool.false_eq_true, if_false, Option.isSome, Bool.not_true, Bool.not_false, Bool.and_self,
+    Bool.true_and]
+
+/-- finding `pickle-not-eq:none-fields-lost`: `_none_fields` is not part of the pickled state, so
+    the unpickled copy of `C(a=1, b=None)` is `C(a=1)` — `!=` in both directions (this is exactly
+    the hypothesis `x.nones = []` of `pickle_eq`) -/
+theorem pickle_counterexample_nones :
+    instEq exU exNone (pickleI id exNone) = false ∧ instEq exU (pickleI id exNone) exNone = false
+    ∧ instEq exU (pickleI id exNone) exUnset = true
+    ∧ instEq exU exNone (deepcopyI exUC id exNone) = true ∧ instEq exU exNone (copyI exNone) = true := by
+  decide
+
+/-- finding `eq-vs-readback:none-recorded-over-stored-value`: `x = C(a=1, b=5); x.b = None` only
+    records `b` in `_none_fields`; `__dict__` keeps 5.  Every name then reads back the same as on
+    `C(a=1, b=5)`, yet the two are `!=`: without its `_none_fields` conjunct `instEq_fieldwise` is
+    false of the code -/
+theorem stale_none_counterexample :
+    (stepI Generated.wrappers exO exUC exUFields
+        { cls := "C", attrs := [("a", .int 1), ("b", .int 5)], undef := true } (.setattr "b" .none)).1.nones = ["b"]
+    ∧ (stepI Generated.wrappers exO exUC exUFields
+        { cls := "C", attrs := [("a", .int 1), ("b", .int 5)], undef := true } (.setattr "b" .none)).1.attrs
+        = [("a", .int 1), ("b", .int 5)]
+    ∧ instEq exU { cls := "C", attrs := [("a", .int 1), ("b", .int 5)], nones := ["b"], undef := true }
+                 { cls := "C", attrs := [("a", .int 1), ("b", .int 5)], undef := true } = false
+    ∧ ∀ k, getA exU { cls := "C", attrs := [("a", .int 1), ("b", .int 5)], nones := ["b"], undef := true } k
+         = getA exU { cls := "C", attrs := [("a", .int 1), ("b", .int 5)], undef := true } k := by
+  refine ⟨by decide, by rfl, by decide, fun k => ?_⟩
+  by_cases ha : k = "a"
+  · subst ha; rfl
+  · by_cases hb : k = "b"
+    · subst hb; rfl
+    · simp [getA, lookup, ha, hb, exU]
 
 end Typedpy.C11
